@@ -350,7 +350,7 @@ def _run_gen(tree, target, level):
 
 def check_gen(item):
     """item = ("g", sql, source, targets) -> list over targets of (status, n_calls, violations)"""
-    _, sql, source, targets = item
+    _, sql, source, targets, *more = item  # optional 5th element: a fixed rotation of the level order (replay)
     _arm_logging()
     st, trees = guarded(lambda: sqlglot.parse(sql, read=source or None), 1 << 62, 1 << 62)
     out = []
@@ -359,11 +359,11 @@ def check_gen(item):
     trees = [t for t in trees if t is not None]
     for target in targets:
         for ti, tree in enumerate(trees):
-            out.append(_check_gen_one(sql, source, target, ti, tree))
+            out.append(_check_gen_one(sql, source, target, ti, tree, more[0] if more else None))
     return out
 
 
-def _check_gen_one(sql, source, target, ti, tree):
+def _check_gen_one(sql, source, target, ti, tree, rot=None):
     viol = []
     inp = {"kind": "gen", "sql": sql, "dialect": source, "target": target, "tree": ti}
 
@@ -371,7 +371,13 @@ def _check_gen_one(sql, source, target, ti, tree):
         viol.append((f"c14:gen:{clause}", what, dict(inp, **extra)))
 
     runs = {}
-    for lv in c05.LEVELS:
+    # the four calls are made in an order that rotates with the input (stable digest): whichever level a process happens to use
+    # first for a target, it is not always the same one (an object cached across calls with the level left out of its key would
+    # otherwise be pinned to IGNORE, the first level of the fixed order, in every worker, and look consistent)
+    import zlib
+
+    rot = zlib.crc32(f"{sql}|{source}|{target}".encode()) % 4 if rot is None else rot
+    for lv in c05.LEVELS[rot:] + c05.LEVELS[:rot]:
         r = _run_gen(tree, target, lv)
         if r[0] == "hang" or (r[0] == "exc" and not isinstance(r[1], E.UnsupportedError)):
             return ("skipped", len(runs) + 1, [], 0)
@@ -411,7 +417,22 @@ def _check_gen_one(sql, source, target, ti, tree):
         which = "immediate-only" if im[0] == "exc" else "raise-only"
         V(f"immediate-iff-raise:{which}", f"IMMEDIATE {'raised' if im[0] == 'exc' else 'returned'}, RAISE {'raised' if ra[0] == 'exc' else 'returned'}")
     nontrivial = len(wa[2]) > 0 or ra[0] == "exc" or im[0] == "exc"
-    return ("nontrivial" if nontrivial else "clean", 4, viol, 0)
+    ncalls = 4
+    if nontrivial:
+        # the level of a call must not be decided by an EARLIER call in the process (objects cached across calls with the level
+        # left out of the key): the same four calls once more in the opposite order give, level by level, the same outcome
+        again = {}
+        for lv in reversed(c05.LEVELS):
+            again[lv] = _run_gen(tree, target, lv)
+            ncalls += 1
+        for lv in c05.LEVELS:
+            a, b = runs[lv], again[lv]
+            same = a[0] == b[0] and (str(a[1]) == str(b[1])) and [m for m, _ in a[2]] == [m for m, _ in b[2]]
+            if not same:
+                V(f"call-order:{lv}", f"unsupported_level={lv}: first pass (IGNORE..IMMEDIATE order) {a[0]} / {len(a[2])} record(s), "
+                                       f"second pass (reverse order) {b[0]} / {len(b[2])} record(s)")
+                break
+    return ("nontrivial" if nontrivial else "clean", ncalls, viol, 0)
 
 
 def check_reuse(item):
@@ -664,15 +685,19 @@ def replay(entry):
         item = ("pi", inp["sql"], inp.get("dialect", ""), tuple(inp["into"]))
     else:
         item = ("p", inp["sql"], inp.get("dialect", ""))
-    rs = guarded_map(_replay_job, [item], batch=1, workers=1)[0]
-    if rs == KILLED:
-        return {"violated": False, "observed": "killed by watchdog (input belongs to C05)", "keys": []}
+    # a generation entry is replayed in four fresh processes, one per rotation of the level order (what an earlier call of the
+    # process left behind is part of the input)
+    variants = [item + (r,) for r in range(4)] if item[0] == "g" else [item]
     keys, whats, sts = [], [], []
-    for st, n, vs, rl in rs:
-        sts.append(st)
-        for key, what, _ in vs:
-            keys.append(key)
-            whats.append(what)
+    for it in variants:
+        rs = guarded_map(_replay_job, [it], batch=1, workers=1)[0]
+        if rs == KILLED:
+            return {"violated": False, "observed": "killed by watchdog (input belongs to C05)", "keys": []}
+        for st, n, vs, rl in rs:
+            sts.append(st)
+            for key, what, _ in vs:
+                keys.append(key)
+                whats.append(what)
     hit = entry["key"] in keys
     return {"violated": hit, "observed": "; ".join(f"{k} [{w}]" for k, w in zip(keys, whats)) or f"relation holds (status {sts})",
             "keys": keys}
